@@ -6,6 +6,10 @@ different PYTHONHASHSEED values (0, 1, 4242, random), CPU affinities (one core /
 scripts that reverse the completion order of the chain workers.  Oracle: per chain number, the sequences of
 (clades, outliers, node labels, parents), concentration values and log_p_one values are identical (bit-equal floats);
 `time` and the dict order of chains are ignored.
+Strata by shard: small inputs (1-3 chains); clustered heavy input (one cluster of 52 mutations, 200 sweeps); sub-tree
+updates on branching data (150-250 sweeps); many clones (12-14 sharply separated mutations, grid 101, 1-3 prune-regraph and
+1-2 data-point moves per sweep: trees of 10+ clones, graph indices that collide in small hash tables - found F12);
+--assign-loss-prob with PyClone-VI style string cluster ids and tied truncal candidates.
 """
 import gzip
 import json
